@@ -17,6 +17,7 @@ S3-compatible storage:
     DATASHARD_S3_PREFIX=optional/prefix/ (optional, default: "")
 """
 
+import errno
 import io
 import json
 import os
@@ -40,6 +41,28 @@ try:
     BOTO3_AVAILABLE = True
 except ImportError:
     BOTO3_AVAILABLE = False
+
+
+class DirectorySyncError(OSError):
+    """A file was renamed into place, but its directory could not be fsynced.
+
+    The new name is visible to every process, yet the rename may not survive a
+    power loss. Unlike every other local write failure this one is raised AFTER
+    the rename: the write is visible and must not be treated as "did not
+    happen" (a version-hint write failing this way is an ambiguous commit), and
+    nothing that references the file may be published as durable.
+    """
+
+
+def dir_fsync_unsupported(exc: OSError) -> bool:
+    """Whether a failed directory open/fsync only says that directories cannot
+    be fsynced on this platform or file system (acceptable: nothing more can be
+    done) - as opposed to a sync that was attempted and failed (EIO, ENOSPC,
+    ...), after which the rename is not known to be durable."""
+    if os.name == "nt":
+        # Windows cannot open a directory with os.open() at all.
+        return True
+    return exc.errno in (errno.EINVAL, errno.ENOTSUP, errno.EOPNOTSUPP)
 
 
 class StorageBackend(ABC):
@@ -337,10 +360,18 @@ class LocalStorageBackend(StorageBackend):
                     os.fsync(dir_fd)
                 finally:
                     os.close(dir_fd)
-            except (OSError, AttributeError):
-                # Some filesystems/OSes don't support directory fsync
-                # This is acceptable - the file fsync is the critical part
+            except AttributeError:
+                # Platform without os.fsync on directory descriptors
                 pass
+            except OSError as e:
+                # Some filesystems/OSes don't support directory fsync - that is
+                # acceptable. A sync that was attempted and FAILED is not: the
+                # rename may be lost in a power failure, so the caller must not
+                # go on to publish (and acknowledge) a pointer to this file.
+                if not dir_fsync_unsupported(e):
+                    raise DirectorySyncError(
+                        e.errno, f"directory fsync failed after renaming {path} into place: {e}"
+                    ) from e
 
         except Exception:
             # Clean up temp file on any error
@@ -357,7 +388,10 @@ class LocalStorageBackend(StorageBackend):
     @property
     def atomic_write_failures(self) -> bool:
         """Local writes go through temp file + os.replace: an exception means the
-        rename never happened, so a failed write is guaranteed not visible."""
+        rename never happened, so a failed write is guaranteed not visible. The
+        one exception is DirectorySyncError, raised after the rename (the write
+        IS visible, its durability is unknown); callers that act on this flag
+        must single it out."""
         return True
 
     def read_json(self, path: str) -> Dict[str, Any]:
